@@ -65,6 +65,9 @@ class World:
             dt = r.choice(['Double', 'Int32', 'String', 'UInt8', 'Float'])
             shape = extra if extra is not None else [r.choice([1, 2, 3, 5]) for _ in range(r.choice([1, 1, 2]))]
             line += ' %s %s' % (dt, lst([str(x) for x in shape]))
+            if extra is None and len(shape) == 1 and r.random() < 0.15:
+                # the templated createDataArray(name, type, data, dtype): made and filled in one call
+                line += ' s' if dt == 'String' else ' d'
         elif kind == 'D':
             cols = [('c%d' % i, r.choice(['', 'mV', 's']), r.choice(['Double', 'Int32', 'String', 'Bool'])) for i in range(r.randint(1, 3))]
             line += ' ' + lst(['%s:%s:%s' % (S(c[0]), S(c[1]), c[2]) for c in cols])
